@@ -1,14 +1,19 @@
 #!/bin/bash
-# usage: seedcheck.sh <seeded name> [check ids...]  — apply /verif/seeded/<name>/patch.diff to /repo, run quick checks, revert
+# usage: seedcheck.sh <seeded name> [check ids...]
+# Applies /verif/seeded/<name>/patch.diff to a scratch worktree of /repo (never to /repo itself),
+# builds the driver against it (VERIF_DEV_REPO) and runs the quick checks; removes the change afterwards.
 cd /verif
 NAME=$1; shift
 PROP=$(python3 -c "import json;print(json.load(open('seeded/$NAME/meta.json'))['property'])")
 CHECKS=${@:-$PROP}
-git -C /repo diff --quiet || { echo "/repo not clean"; exit 3; }
-git -C /repo apply /verif/seeded/$NAME/patch.diff || exit 3
+WT=${SEED_WT:-/tmp/seed/wt1}
+[ -d $WT ] || git -C /repo worktree add -q --detach $WT HEAD
+git -C $WT checkout -q --detach $(git -C /repo rev-parse HEAD) 2>/dev/null
+git -C $WT checkout -q -- . ; git -C $WT clean -fdq
+git -C $WT apply /verif/seeded/$NAME/patch.diff || exit 3
 for c in $CHECKS; do
-  bin/vcheck $c --tier ${TIER:-quick} > /tmp/seed_check_$c.log 2>&1; rc=$?
+  VERIF_DEV_REPO=$WT bin/vcheck $c --tier ${TIER:-quick} > /tmp/seed_check_$c.log 2>&1; rc=$?
   v=$(grep -c '^VIOLATION' /tmp/seed_check_$c.log)
   echo "$NAME: check $c exit $rc, $v VIOLATION lines; $(grep -m1 'clause:' /tmp/seed_check_$c.log | cut -c1-140) $(grep -m1 ERROR /tmp/seed_check_$c.log | cut -c1-200)"
 done
-git -C /repo checkout -q -- .
+git -C $WT checkout -q -- .
